@@ -76,6 +76,42 @@ Theorem C20_half_rate_seek_checked :
 Proof. exact pcm_seek_checked_h. Qed.
 Print Assumptions C20_half_rate_seek_checked.
 
+(* half rate: page seek and byte seek land the handle; the first fetch after landing is in sync at the reported position *)
+Theorem C20_half_rate_page_seek_lands :
+  forall (tail : list page) s pos s1,
+    v_hs s = 1 -> OPENED <= v_rs s <= INITSET ->
+    pcm_seek_page s pos = (0, s1) -> fallback s pos = false -> FileIntactH tail s1 pos ->
+    v_pcm s1 <= pos /\ LandedH tail s1 pos.
+Proof. exact pcm_seek_page_truthful_h. Qed.
+Print Assumptions C20_half_rate_page_seek_lands.
+
+Theorem C20_half_rate_landed_then_fetch_in_sync :
+  forall (tail : list page) s1 pos, LandedH tail s1 pos ->
+    let s2 := make_ready s1 in
+    let e := v_pcm s1 - base_of s1 (v_link s1) in
+    exists p r w s0,
+      stream tail s2 = p :: r /\ pk_W p = Some w /\
+      fetch (fetch_fuel s2) s2 = (1, feed s0 p w) /\
+      SyncInvH (feed s0 p w) e /\ dec_pcmout (v_dec (feed s0 p w)) = 0 /\ v_pcm (feed s0 p w) = v_pcm s1 /\
+      IntactS (cur_link s1) false e w r.
+Proof. exact landed_fetch_h. Qed.
+Print Assumptions C20_half_rate_landed_then_fetch_in_sync.
+
+Theorem C20_half_rate_raw_seek_lands :
+  forall (tail : list page) s pos pg (r1 : list page) e0,
+    let l := cur_link s in
+    let pk := if pg_cont pg then tl (pg_pkts pg) else pg_pkts pg in
+    v_hs s = 1 -> v_rs s >= STREAMSET -> v_rs s <= INITSET ->
+    0 <= pos <= file_end s -> li_off l <= pos < li_end l ->
+    pages_from (v_pages s) pos = pg :: r1 ++ tail ->
+    plain (v_serial s) pg -> pg_eos pg = false -> Forall (plain (v_serial s)) r1 ->
+    0 < li_bs0 l -> 0 < li_bs1 l -> li_bs0 l <= li_bs1 l -> li_bs0 l mod 8 = 0 -> li_bs1 l mod 8 = 0 -> 0 <= li_init l ->
+    0 <= e0 -> IntactS l true e0 false (pk ++ flat_map pg_pkts r1) -> scan_acc l 0 0 pk <> None ->
+    let s' := snd (raw_seek s pos) in
+    fst (raw_seek s pos) = 0 /\ v_pcm s' = base_of s (v_link s) + e0 /\ LandedH tail s' (v_pcm s').
+Proof. exact raw_seek_truthful_h. Qed.
+Print Assumptions C20_half_rate_raw_seek_lands.
+
 Theorem C20_truthful_pending_half_rate :
   forall (tail : list page) s pos, NReadyH tail s pos ->
     exists e, v_pcm s = base_of s (v_link s) + e /\
